@@ -121,6 +121,13 @@ Theorem C16_reachable_valid : forall ops d, uniq d -> all_valid d ->
 Proof. exact reachable_valid. Qed.
 Print Assumptions C16_reachable_valid.
 
+(* add_tm raises nothing but the documented ValueError (subservice outside 1..8), state unchanged *)
+Theorem C16_add_tm_errors_documented : forall d r e,
+  (rep_sub r = 5 \/ rep_sub r = 6 -> rep_step r <> None) ->
+  snd (add_tm d r) = Err e -> e = EValue /\ ~ (1 <= rep_sub r <= 8) /\ fst (add_tm d r) = d.
+Proof. exact add_tm_errors_documented. Qed.
+Print Assumptions C16_add_tm_errors_documented.
+
 (* non-vacuity: the nominal chain acceptance, start, step, completion, then removal *)
 Example C16_nominal_chain :
   let h := {| ver := 0; ptype := 1; shf := 1; apid := 5; sflags := 3; scount := 7; dlen := 0 |} in
